@@ -316,9 +316,107 @@ func checkC20(c *ctx) {
 			return
 		}
 	}
-	// in-memory segment: Close is harmless
+	// very many holders: 65536, 65537 and 65538 references (a narrow counter would wrap)
+	for _, total := range []int{65536, 65537, 65538} {
+		s, err := zh.Plugin.Open(path)
+		must(err)
+		seg := s.(*zap.Segment)
+		for k := 1; k < total; k++ {
+			seg.AddRef()
+		}
+		bad := ""
+		for k := total; k >= 1 && bad == ""; k-- {
+			derr := seg.DecRef()
+			if derr != nil {
+				bad = fmt.Sprintf("DecRef with %d references held returned %v", k, derr)
+			}
+			if k == total || k == total-1 || k == 2 || k == 1 {
+				mp, fd := mappedAndFd(path)
+				if (k > 1) != mp || (k > 1) != fd {
+					bad = fmt.Sprintf("after dropping one of %d references (%d were taken in all): mapped=%v descriptor open=%v", k, total, mp, fd)
+				}
+			}
+		}
+		c.Case(fmt.Sprintf("holders-%d", total), true)
+		c.Count("many_holder_runs")
+		if bad != "" {
+			c.Violation("C20 a segment held by "+fmt.Sprint(total)+" references\n"+bad, false)
+			return
+		}
+	}
+	// in-memory segment: Close is harmless - also for reader objects obtained before it
+	var heldTh segment.Thesaurus
+	var heldTerm string
+	var heldPairs int
+	var heldIt segment.SynonymsIterator
+	if len(want.Thes) > 0 && len(want.Thes[0].Terms) > 0 {
+		heldTh, err = sb.Thesaurus(want.Thes[0].Name)
+		must(err)
+		heldTerm, heldPairs = want.Thes[0].Terms[0].Term, len(want.Thes[0].Terms[0].Pairs)
+		l, err := heldTh.SynonymsList([]byte(heldTerm), nil, nil)
+		must(err)
+		heldIt = l.Iterator(nil)
+		if heldPairs > 1 {
+			heldIt.Next() // half read
+		}
+	}
 	if err := sb.Close(); err != nil {
 		c.Violation("C20 in-memory Close returned "+err.Error(), false)
+	}
+	if heldTh != nil {
+		bad := ""
+		func() {
+			defer func() {
+				if r := recover(); r != nil {
+					bad = fmt.Sprintf("PANIC: %v", r)
+				}
+			}()
+			n := 0
+			if heldPairs > 1 {
+				n = 1
+			}
+			for {
+				sy, err := heldIt.Next()
+				if err != nil {
+					bad = "the half-read synonyms iterator: " + err.Error()
+					return
+				}
+				if sy == nil {
+					break
+				}
+				n++
+			}
+			if n != heldPairs {
+				bad = fmt.Sprintf("the half-read synonyms iterator of term %q yields %d pairs in total, the term has %d", heldTerm, n, heldPairs)
+				return
+			}
+			l, err := heldTh.SynonymsList([]byte(heldTerm), nil, nil)
+			if err != nil {
+				bad = "SynonymsList through the retained thesaurus: " + err.Error()
+				return
+			}
+			it := l.Iterator(nil)
+			m := 0
+			for {
+				sy, err := it.Next()
+				if err != nil {
+					bad = "a new lookup through the retained thesaurus: " + err.Error()
+					return
+				}
+				if sy == nil {
+					break
+				}
+				m++
+			}
+			if m != heldPairs {
+				bad = fmt.Sprintf("a new lookup of %q through the retained thesaurus yields %d pairs, the term has %d", heldTerm, m, heldPairs)
+			}
+		}()
+		if bad != "" {
+			c.Violation("C20 closing an in-memory segment must be harmless for reader objects obtained before the Close (a Thesaurus handle and a half-read synonyms iterator)\n"+bad, false)
+			return
+		}
+		c.Count("retained_thesaurus_after_inmemory_close")
 	}
 	// (reading an in-memory segment after Close is not part of the statement: Close releases its caches)
 	if err := sb.Close(); err != nil {
